@@ -494,6 +494,10 @@ def growth(tier: str) -> int:
     print(f"Shade.tla: {st['tlc']['distinct']} states, invariants violated: {st['tlc']['violated']}, witnesses reached: {st['witnesses_reached']}; "
           f"ShadeTrace.tla: {rec['traces']} recorded SHADE objects, {rec['events']} generations ({rec['without_success']} without a success, "
           f"{rec['archive_cut']} with the archive cut back), {st['trace_states']} states")
+    from .mod_apalache import shade_inductive
+    ap = shade_inductive(tier)
+    print("ShadeInd.tla (Apalache, unbounded memory / population size): " +
+          (f"IndInv initial: {ap['base']}, inductive step: {ap['step']}" if ap.get("available") else "apalache-mc not available"))
     for clause, v in st["clauses_violated"].items():
         print(f"OBSERVATION (no listed property): {clause}: {v['n']} recorded generations disagree with Shade.tla, first: {v['first']}")
     if not st["clauses_violated"]:
